@@ -265,6 +265,18 @@ def run(rep, tier="quick", replay=None, evidence_dir=None):
                    "field_default() answers with the parameter type's default while get_schema_in_ctxt() builds a different schema: a derived field of this type gets a default that does not conform to its schema (the derived schema cannot be parsed back / written to a file header)", bd.loc())
     rep.floor("C17.R5", "wrapper impls (x hypothetical const values) that pass on the parameter's default", n5, 5)
 
+    # ---------------------------------------------------------------- R6: the union builder the derived code calls (C11.R1 instances)
+    rep.rule("C17.R6", "the union builder that derived enum schemas are assembled with keeps its index tables and its branch list in step (C11.R1 instances)")
+    import c11
+    sub11 = common.Report("C11", tier, 0)
+    c11.run(sub11, tier=tier, collect_only=True)
+    n6 = 0
+    for o in sub11.obligations:
+        if o["rule"] == "C11.R1" and "UnionSchemaBuilder" in o["instance"] or (o["rule"] == "C11.R1" and o["instance"].startswith("variant")):
+            n6 += 1
+            rep.ob("C17.R6", "[C11.R1] " + o["instance"], o["ok"], o["detail"], o["loc"])
+    rep.floor("C17.R6", "imported union-builder obligations", n6, 8)
+
     rep.not_decided = ["validity of the derived schema beyond names, order and field types (defaults, docs, namespaces of nested types)", "JSON round trip of the derived schema, value round trips, container files: need execution",
                        "run-time handling of skipped fields' defaults (serde::ser_schema::record::field_default)"]
     return common.finish(rep, level="other",
